@@ -21,26 +21,48 @@ lazy_static! {
     };
 }
 
-pub fn eval_int(expression: Pairs<Rule>) -> i64 {
+/// `base` to the power `exp` with wrap-around, for any non-negative exponent.
+fn wrapping_pow(mut base: i64, mut exp: u64) -> i64 {
+    let mut acc: i64 = 1;
+    while exp > 0 {
+        if exp & 1 == 1 {
+            acc = acc.wrapping_mul(base);
+        }
+        base = base.wrapping_mul(base);
+        exp >>= 1;
+    }
+    acc
+}
+
+pub fn eval_int(expression: Pairs<Rule>) -> Result<i64, &'static str> {
     PRATT_PARSER
         .map_primary(|primary| match primary.as_rule() {
-            Rule::num => primary.as_str().parse::<i64>().unwrap(),
+            Rule::num => primary.as_str().parse::<i64>().map_err(|_| "number out of range"),
             Rule::expr => eval_int(primary.into_inner()),
             _ => unreachable!(),
         })
-        .map_infix(|lhs: i64, op: Pair<Rule>, rhs: i64| match op.as_rule() {
-            Rule::add => (W(lhs) + W(rhs)).0,
-            Rule::subtract => (W(lhs) - W(rhs)).0,
-            Rule::multiply => (W(lhs) * W(rhs)).0,
-            Rule::divide => {
-                if rhs == 0 {
-                    (lhs as f64 / 0.0) as i64
-                } else {
-                    (W(lhs) / W(rhs)).0
+        .map_infix(|lhs: Result<i64, &'static str>, op: Pair<Rule>, rhs: Result<i64, &'static str>| {
+            let (lhs, rhs) = (lhs?, rhs?);
+            match op.as_rule() {
+                Rule::add => Ok((W(lhs) + W(rhs)).0),
+                Rule::subtract => Ok((W(lhs) - W(rhs)).0),
+                Rule::multiply => Ok((W(lhs) * W(rhs)).0),
+                Rule::divide => {
+                    if rhs == 0 {
+                        Ok((lhs as f64 / 0.0) as i64)
+                    } else {
+                        Ok((W(lhs) / W(rhs)).0)
+                    }
                 }
+                Rule::power => {
+                    if rhs < 0 {
+                        Err("negative exponent")
+                    } else {
+                        Ok(wrapping_pow(lhs, rhs as u64))
+                    }
+                }
+                _ => unreachable!(),
             }
-            Rule::power => lhs.pow(rhs as u32),
-            _ => unreachable!(),
         })
         .parse(expression)
 }
